@@ -56,7 +56,9 @@ def run_property(pid, tier, seed):
     violations = []   # (obligation, replay path, witness?)
     known_lines = []
     kf = driver.load_known_findings()
-    units = unit_closure(P.get("units", []))
+    # aux_units: units whose discharged obligations this property also rests on (e.g. C02 on journal's
+    # `clear`), but whose `__finding_` twins belong to other properties (treated like closure units)
+    units = unit_closure(list(P.get("units", [])) + list(P.get("aux_units", [])))
     ext = None
     build_s = 0
     if units and needs_rlibs(units):
@@ -72,6 +74,7 @@ def run_property(pid, tier, seed):
         for u, f in futs.items():
             results[u] = f.result()
     obligations = {}
+    lost_hint_fns = {}
     finding_obs = {}
     fns_under_contract = []
     drops = []
@@ -97,6 +100,7 @@ def run_property(pid, tier, seed):
             for a in r.meta["assumed"]:
                 assumed_ledger.append({"unit": u, **a})
             for lh in r.meta["lost_hints"]:
+                lost_hint_fns.setdefault(u, set()).add(lh["fn"])
                 lines.append(f"NOTE unit={u} proof hint anchors lost in {lh['fn']}: {lh['anchors']} (hints skipped)")
         for name, e in r.obligations.items():
             if "__finding_" in name:
@@ -159,6 +163,14 @@ def run_property(pid, tier, seed):
             v["witness"] = replay.search_witness(pid, v, seed)
         except Exception as e:  # the search is not the deciding step
             v["witness_error"] = str(e)
+        lost = lost_hint_fns.get(v["unit"], set())
+        if v["fn"].split("::")[-1] in lost and not v.get("witness"):
+            # the function's text changed where proof hints were anchored, the hints were dropped and the
+            # proof no longer goes through, but no failing input was found on the real code: this cannot be
+            # told apart from a harmless refactoring -> undecided, never an alarm
+            undecided.append(f"{v['unit']}: {v['fn']}: proof hints lost (code changed at their anchors), obligation not "
+                             f"re-established and no failing input found by the witness search")
+            continue
         real.append(v)
     for v in real:
         path = replay.write_replay(pid, v)
